@@ -35,7 +35,7 @@ def verify(d):
         rc, out = sh(['git', '-C', REPO, 'worktree', 'add', '--detach', '-q', wt, 'HEAD'])
         assert rc == 0, out
         env = dict(os.environ, PYTHONPATH=wt, PYTHONDONTWRITEBYTECODE='1')
-        demo = os.path.join(d, 'demo.py')
+        demo = os.path.join(os.path.abspath(d), 'demo.py')
         rc, out = sh([PY, demo], cwd=wt, env=env, timeout=1800)
         res['demo_clean_rc'] = rc
         rc, out = sh(['git', '-C', wt, 'apply', os.path.join(os.path.abspath(d), 'patch.diff')])
